@@ -99,6 +99,9 @@ def evaluate(case, chk):
         rng = Rng(case.get("cseed", 1), "cfg")
         case["configs"] = gen_configs(rng, pilot.goroutines, case.get("nconf", 6), sweep=case.get("sweep", False),
                                       batches=case.get("batches"))
+        for k, fl in enumerate(case.get("force_flags") or []):
+            if k < len(case["configs"]):
+                case["configs"][k]["flags"] = list(fl)
         judge(case, vd, ref, pilot, {"pilot": True})
     first_ok = None
     for cfg in case["configs"]:
@@ -279,6 +282,9 @@ def cases(rng, tier):
     streams.append(gen.termination_cases(rng.fork("term"), tier))
     streams.append(gen.tail_cases(rng.fork("tail"), tier))
     streams.append(gen.seed_cases(rng.fork("seed"), tier))
+    streams.append(gen.hash_cases(rng.fork("hash"), tier))
+    if only:
+        streams = [st for st, nm in zip(streams, ["corpus", "chains", "term", "tail", "seed", "hash"]) if nm in only.split(",")]
     return interleave(*streams)
 
 
